@@ -297,6 +297,8 @@ enum Comb {
     Bounds(Bd, Bd),
     Prune(u64),
     Lazy,
+    /// the scan stack of the store: Bounds(Pruning(Merging[children])) (read timestamp, lo, hi)
+    Stack(u64, Bd, Bd),
 }
 
 fn build(comb: &Comb, tabs: &[Tab], dir: &mut SstDir) -> Result<Box<dyn Cursor>, SError> {
@@ -310,7 +312,31 @@ fn build(comb: &Comb, tabs: &[Tab], dir: &mut SstDir) -> Result<Box<dyn Cursor>,
         Comb::Bounds(lo, hi) => Box::new(BoundsCursor::new(kids.pop().unwrap(), &lo.bound(), &hi.bound())?),
         Comb::Prune(t) => Box::new(PruningCursor::new(kids.pop().unwrap(), *t)?),
         Comb::Lazy => kids.pop().unwrap(),
+        Comb::Stack(t, lo, hi) => Box::new(BoundsCursor::new(PruningCursor::new(MergingCursor::new(kids)?, *t)?, &lo.bound(), &hi.bound())?),
     })
+}
+
+/// per key the newest version <= t, unless it is a tombstone (the specification of the pruning cursor)
+fn prune_list(xs: &[Ent], t: u64) -> Vec<Ent> {
+    let mut out: Vec<Ent> = vec![];
+    let mut i = 0;
+    while i < xs.len() {
+        let mut j = i;
+        let mut cand: Option<&Ent> = None;
+        while j < xs.len() && xs[j].key == xs[i].key {
+            if cand.is_none() && xs[j].ts <= t {
+                cand = Some(&xs[j]);
+            }
+            j += 1;
+        }
+        if let Some(c) = cand {
+            if c.val.is_some() {
+                out.push(c.clone());
+            }
+        }
+        i = j;
+    }
+    out
 }
 
 /// the list the specification names
@@ -346,6 +372,13 @@ fn spec_list(comb: &Comb, tabs: &[Tab]) -> Vec<Ent> {
             out
         }
         Comb::Lazy => tabs[0].ents.clone(),
+        Comb::Stack(t, lo, hi) => {
+            // the SET of versions: a (key, ts) held by several children is one version
+            let mut all: Vec<Ent> = tabs.iter().flat_map(|t| t.ents.iter().cloned()).collect();
+            all.sort_by(ent_cmp);
+            all.dedup_by(|b, a| a.key == b.key && a.ts == b.ts);
+            prune_list(&all, *t).into_iter().filter(|e| above_lo(lo, &e.key) && below_hi(hi, &e.key)).collect()
+        }
     }
 }
 
@@ -549,6 +582,7 @@ fn request(comb: &Comb, tabs: &[Tab], ops: &[Op], asis: &AsIs) -> String {
         Comb::Bounds(lo, hi) => format!("cur bounds {} {} {}", vtok(asis.bounds_prev_old), lo.tok(), hi.tok()),
         Comb::Prune(t) => format!("cur prune {}", t),
         Comb::Lazy => "cur lazy".to_string(),
+        Comb::Stack(t, lo, hi) => format!("cur stack {} {} {}", t, lo.tok(), hi.tok()),
     };
     format!("{} T {}X {}", head, table_tokens(tabs), prog_tokens(ops)).trim_end().to_string()
 }
@@ -608,6 +642,7 @@ fn classify(comb: &Comb, tabs: &[Tab], ops: &[Op], i: Option<usize>, asis: &AsIs
         Comb::Merge => "merge-mismatch".into(),
         Comb::Prune(_) => "prune-mismatch".into(),
         Comb::Lazy => "lazy-mismatch".into(),
+        Comb::Stack(..) => "stack-mismatch".into(),
     }
 }
 
@@ -793,6 +828,398 @@ fn gen_bd(rng: &mut Rng) -> Bd {
     }
 }
 
+
+// ------------------------------------------------------------------------------------------------
+// the scan stack over children that hold the same (key, ts): streams `stackdup` (the copies are
+// identical entries: the flush window, identical files) and `stackmal` (malformed: the copies
+// carry different values / tombstone flags)
+// ------------------------------------------------------------------------------------------------
+
+fn holds(t: &[Ent], e: &Ent) -> bool {
+    t.iter().any(|x| x.key == e.key && x.ts == e.ts)
+}
+
+fn add_copy(tabs: &mut [Vec<Ent>], e: &Ent, j: usize) -> bool {
+    if holds(&tabs[j], e) {
+        return false;
+    }
+    tabs[j].push(e.clone());
+    true
+}
+
+/// (key, ts) -> the children that hold it, for every (key, ts) held by at least two
+fn duplicates(tabs: &[Vec<Ent>]) -> Vec<(Vec<u8>, u64, Vec<usize>)> {
+    let mut all: Vec<(Vec<u8>, u64, usize)> = vec![];
+    for (j, t) in tabs.iter().enumerate() {
+        for e in t {
+            all.push((e.key.clone(), e.ts, j));
+        }
+    }
+    all.sort();
+    let mut out: Vec<(Vec<u8>, u64, Vec<usize>)> = vec![];
+    for (k, ts, j) in all {
+        match out.last_mut() {
+            Some((k2, ts2, hs)) if *k2 == k && *ts2 == ts => hs.push(j),
+            _ => out.push((k, ts, vec![j])),
+        }
+    }
+    out.retain(|x| x.2.len() >= 2);
+    out
+}
+
+struct StackCase {
+    tabs: Vec<Tab>,
+    t: u64,
+    lo: Bd,
+    hi: Bd,
+    ops: Vec<Op>,
+    shapes: Vec<&'static str>,
+}
+
+/// children with duplicated (key, ts); every copy is the identical entry
+fn gen_stackdup(rng: &mut Rng) -> StackCase {
+    let tp = gen_tomb_pct(rng);
+    let mut pool = gen_pool(rng, tp);
+    for _ in 0..6 {
+        if pool.len() >= 2 {
+            break;
+        }
+        pool = gen_pool(rng, tp);
+    }
+    if pool.is_empty() {
+        pool.push(Ent { key: b"a".to_vec(), ts: 3, val: Some(b"v".to_vec()) });
+    }
+    let mut shapes: Vec<&'static str> = vec![];
+    const SHAPES: [&str; 7] = ["flush_window", "copy_in_three", "tombstone", "first_last_key", "at_bounds", "random", "all_identical"];
+    let primary = *rng.pick(&SHAPES);
+    for sh in SHAPES.iter() {
+        if *sh == primary || rng.chance(1, 5) {
+            shapes.push(sh);
+        }
+    }
+    let has = |shapes: &Vec<&'static str>, s: &str| shapes.iter().any(|x| *x == s);
+    // tombstones to be duplicated are made before the entries are dealt out
+    let mut tomb_idx: Vec<usize> = vec![];
+    if has(&shapes, "tombstone") {
+        for _ in 0..1 + rng.below(2) {
+            let i = rng.below(pool.len() as u64) as usize;
+            pool[i].val = None;
+            tomb_idx.push(i);
+        }
+    }
+    let mut k = 2 + rng.below(4) as usize;
+    if has(&shapes, "copy_in_three") && k < 3 {
+        k = 3;
+    }
+    let mut tabs: Vec<Vec<Ent>> = (0..k).map(|_| vec![]).collect();
+    if has(&shapes, "all_identical") {
+        for t in tabs.iter_mut() {
+            *t = pool.clone();
+        }
+    } else {
+        let live: Vec<usize> = (0..k).filter(|_| rng.chance(5, 6)).collect();
+        let live = if live.is_empty() { vec![0] } else { live };
+        for e in pool.iter() {
+            let j = *rng.pick(&live);
+            tabs[j].push(e.clone());
+        }
+    }
+    let other = |rng: &mut Rng, k: usize| rng.below(k as u64) as usize;
+    if has(&shapes, "random") {
+        for e in pool.iter() {
+            if rng.chance(1, 3) {
+                for _ in 0..1 + rng.below(2) {
+                    let j = other(rng, k);
+                    add_copy(&mut tabs, e, j);
+                }
+            }
+        }
+    }
+    if has(&shapes, "copy_in_three") {
+        for _ in 0..1 + rng.below(2) {
+            let e = rng.pick(&pool).clone();
+            let mut js: Vec<usize> = (0..k).collect();
+            rng.shuffle(&mut js);
+            for j in js.into_iter().take(3) {
+                add_copy(&mut tabs, &e, j);
+            }
+        }
+    }
+    for i in tomb_idx {
+        let e = pool[i].clone();
+        for _ in 0..1 + rng.below(2) {
+            let j = other(rng, k);
+            add_copy(&mut tabs, &e, j);
+        }
+        if rng.chance(1, 2) {
+            for j in 0..k {
+                add_copy(&mut tabs, &e, j);
+            }
+        }
+    }
+    if has(&shapes, "first_last_key") {
+        let which = rng.below(3);
+        if which != 1 {
+            let e = pool[0].clone();
+            for _ in 0..1 + rng.below(2) {
+                let j = other(rng, k);
+                add_copy(&mut tabs, &e, j);
+            }
+            add_copy(&mut tabs, &e, (k - 1).min(1));
+            add_copy(&mut tabs, &e, 0);
+        }
+        if which != 0 {
+            let e = pool[pool.len() - 1].clone();
+            for _ in 0..1 + rng.below(2) {
+                let j = other(rng, k);
+                add_copy(&mut tabs, &e, j);
+            }
+            add_copy(&mut tabs, &e, (k - 1).min(1));
+            add_copy(&mut tabs, &e, 0);
+        }
+    }
+    if has(&shapes, "flush_window") {
+        // one child's whole content once more as another child (the immutable memtable and its file)
+        let nonempty: Vec<usize> = (0..tabs.len()).filter(|j| !tabs[*j].is_empty()).collect();
+        if !nonempty.is_empty() {
+            let src = *rng.pick(&nonempty);
+            let copy = tabs[src].clone();
+            let at = match rng.below(3) { 0 => src + 1, 1 => 0, _ => rng.below(tabs.len() as u64 + 1) as usize };
+            tabs.insert(at, copy);
+        }
+    }
+    for t in tabs.iter_mut() {
+        t.sort_by(ent_cmp);
+    }
+    let dups = duplicates(&tabs);
+    // read timestamp: three times in four chosen so that a duplicated version is the visible one
+    let t = if !dups.is_empty() && rng.chance(3, 4) {
+        let d = rng.pick(&dups);
+        match rng.below(4) { 0 => d.1, 1 => d.1 + 1, 2 => u64::MAX, _ => *rng.pick(&READ_TS).max(&d.1) }
+    } else {
+        *rng.pick(&READ_TS)
+    };
+    let mut lo = gen_bd(rng);
+    let mut hi = gen_bd(rng);
+    if rng.chance(1, 3) {
+        lo = Bd::Unb;
+    }
+    if rng.chance(1, 3) {
+        hi = Bd::Unb;
+    }
+    if has(&shapes, "at_bounds") && !dups.is_empty() {
+        let a = rng.pick(&dups).0.clone();
+        let b = rng.pick(&dups).0.clone();
+        let (a, b) = if a <= b { (a, b) } else { (b, a) };
+        match rng.below(3) {
+            0 => lo = if rng.chance(2, 3) { Bd::Inc(a) } else { Bd::Exc(a) },
+            1 => hi = if rng.chance(2, 3) { Bd::Inc(b) } else { Bd::Exc(b) },
+            _ => {
+                lo = if rng.chance(2, 3) { Bd::Inc(a) } else { Bd::Exc(a) };
+                hi = if rng.chance(2, 3) { Bd::Inc(b) } else { Bd::Exc(b) };
+            }
+        }
+    } else if rng.chance(4, 5) {
+        let swap = match (&lo, &hi) {
+            (Bd::Inc(a) | Bd::Exc(a), Bd::Inc(b) | Bd::Exc(b)) => a > b,
+            _ => false,
+        };
+        if swap {
+            std::mem::swap(&mut lo, &mut hi);
+        }
+    }
+    let mut tabs: Vec<Tab> = tabs.into_iter().map(|ents| Tab { ents, kind: ChildKind::Ref, prepos: 0 }).collect();
+    gen_kinds(rng, &mut tabs);
+    let n: usize = tabs.iter().map(|t| t.ents.len()).sum();
+    let ops = gen_prog(rng, n);
+    StackCase { tabs, t, lo, hi, ops, shapes }
+}
+
+/// `stackmal`: the copies of a duplicated (key, ts) get different payloads.  A value names the child
+/// that holds it (`c<j>`), so the observation tells which child won.
+fn make_malformed(rng: &mut Rng, sc: &mut StackCase) -> &'static str {
+    let mode = *rng.pick(&["values_differ", "values_differ", "tombstone_flags_differ", "mixed"]);
+    let ents: Vec<Vec<Ent>> = sc.tabs.iter().map(|t| t.ents.clone()).collect();
+    for (key, ts, hs) in duplicates(&ents) {
+        let tomb_at: Option<usize> = match mode {
+            "values_differ" => None,
+            "tombstone_flags_differ" => Some(*rng.pick(&hs)),
+            _ => if rng.chance(1, 2) { Some(*rng.pick(&hs)) } else { None },
+        };
+        for j in hs.iter() {
+            for e in sc.tabs[*j].ents.iter_mut() {
+                if e.key == key && e.ts == ts {
+                    e.val = if tomb_at == Some(*j) { None } else { Some(vec![b'c', b'0' + *j as u8]) };
+                }
+            }
+        }
+    }
+    mode
+}
+
+fn parse_obs(s: &str) -> Option<(Vec<u8>, u64, Option<Vec<u8>>)> {
+    let (k, rest) = s.split_once('@')?;
+    let (t, v) = rest.split_once('=')?;
+    let key = if k == "-" { vec![] } else { unhex(k)? };
+    let ts: u64 = t.parse().ok()?;
+    let val = if v == "tombstone" { None } else if v == "-" { Some(vec![]) } else { Some(unhex(v)?) };
+    Some((key, ts, val))
+}
+
+fn stack_case(cx: &mut Ctx, name: &str, sc: StackCase, malformed: Option<&'static str>) {
+    let StackCase { tabs, t, lo, hi, ops, shapes } = sc;
+    let comb = Comb::Stack(t, lo.clone(), hi.clone());
+    let req = request(&comb, &tabs, &ops, &cx.asis);
+    let spec = spec_list(&comb, &tabs);
+    let res = {
+        let dir = &mut cx.dir;
+        guarded(AssertUnwindSafe(|| run_prog(build(&comb, &tabs, dir), &ops)))
+    };
+    cx.dir.sweep();
+    let rec = &mut cx.rec;
+    rec.count(&format!("cases.{}", name));
+    rec.add(&format!("{}.tables", name), tabs.len() as u64);
+    let total: usize = tabs.iter().map(|t| t.ents.len()).sum();
+    rec.add("entries", total as u64);
+    rec.add("entries.tombstones", tabs.iter().map(|t| t.ents.iter().filter(|e| e.val.is_none()).count() as u64).sum());
+    for tb in &tabs {
+        rec.count(match tb.kind { ChildKind::Ref => "child.reference", ChildKind::Sst => "child.sst", ChildKind::LazySst => "child.lazy_over_sst", ChildKind::LazyReopen => "child.lazy_reopening_sst" });
+        if tb.prepos > 0 {
+            rec.count("child.prepositioned");
+        }
+    }
+    for sh in &shapes {
+        rec.count(&format!("{}.shape.{}", name, sh));
+    }
+    rec.count(&format!("{}.bounds.{}{}", name, lo.kind(), hi.kind()));
+    rec.add("ops", ops.len() as u64);
+    let (rev, _) = count_prog(rec, &ops);
+    if rev > 0 {
+        rec.count(&format!("{}.cases_with_reversal", name));
+    }
+    // the duplicates and which of them matter at this timestamp and these bounds
+    let ents: Vec<Vec<Ent>> = tabs.iter().map(|t| t.ents.clone()).collect();
+    let dups = duplicates(&ents);
+    let all: Vec<&Ent> = ents.iter().flat_map(|t| t.iter()).collect();
+    let in_bounds = |k: &[u8]| above_lo(&lo, k) && below_hi(&hi, k);
+    let candidate = |k: &[u8], ts: u64| ts <= t && !all.iter().any(|e| e.key == k && e.ts <= t && e.ts > ts);
+    let mut visible = 0u64;
+    let mut visible_tomb = 0u64;
+    let first_key = all.iter().map(|e| e.key.clone()).min();
+    let last_key = all.iter().map(|e| e.key.clone()).max();
+    for (k, ts, hs) in &dups {
+        rec.count(&format!("{}.duplicate.holders_{}", name, if hs.len() >= 4 { "4plus".to_string() } else { hs.len().to_string() }));
+        let tomb = all.iter().any(|e| e.key == *k && e.ts == *ts && e.val.is_none());
+        if tomb {
+            rec.count(&format!("{}.duplicate.tombstone", name));
+        }
+        if Some(k) == first_key.as_ref() {
+            rec.count(&format!("{}.duplicate.at_first_key", name));
+        }
+        if Some(k) == last_key.as_ref() {
+            rec.count(&format!("{}.duplicate.at_last_key", name));
+        }
+        let at_bound = |b: &Bd| matches!(b, Bd::Inc(x) | Bd::Exc(x) if x == k);
+        if at_bound(&lo) || at_bound(&hi) {
+            rec.count(&format!("{}.duplicate.key_is_a_bound", name));
+        }
+        if candidate(k, *ts) && in_bounds(k) {
+            visible += 1;
+            if tomb {
+                visible_tomb += 1;
+            }
+        }
+    }
+    rec.add(&format!("{}.duplicate_key_ts", name), dups.len() as u64);
+    rec.add(&format!("{}.duplicate_visible_at_t_in_bounds", name), visible);
+    rec.add(&format!("{}.duplicate_visible_at_t_in_bounds.tombstone", name), visible_tomb);
+    let ids: Vec<Vec<(&[u8], u64)>> = ents.iter().map(|t| t.iter().map(|e| (e.key.as_slice(), e.ts)).collect()).collect();
+    if (0..ids.len()).any(|a| !ids[a].is_empty() && (0..ids.len()).any(|b| a != b && ids[a] == ids[b])) {
+        rec.count(&format!("{}.cases_with_two_children_of_identical_content", name));
+    }
+    if !dups.is_empty() {
+        rec.count(&format!("{}.cases_with_duplicates", name));
+    }
+    let nt = if visible > 0 { Some(fnv(req.as_bytes())) } else { None };
+    if nt.is_some() {
+        rec.count(&format!("{}.nontrivial_cases", name));
+        if rev > 0 {
+            rec.count(&format!("{}.nontrivial_cases_with_reversal", name));
+        }
+    }
+    let (obs_line, verdict) = match res {
+        Ok(obs) => {
+            let v = match malformed {
+                None => judge(&comb, &tabs, &ops, spec.clone(), &obs, false, &cx.asis),
+                Some(mode) => {
+                    // no verdict: what happens is recorded
+                    rec.count(&format!("{}.mode.{}", name, mode));
+                    if obs.iter().any(|o| o.starts_with("err:")) {
+                        rec.count(&format!("{}.program_ended_with_error", name));
+                    }
+                    // which child's copy is shown, by the direction of the call that led there
+                    let mut seen: Vec<(Vec<u8>, u64, bool, usize)> = vec![];
+                    let mut shown_keys: Vec<(Vec<u8>, bool)> = vec![];
+                    for (i, op) in ops.iter().enumerate() {
+                        let o = match obs.get(i + 1) { Some(o) => o, None => break };
+                        let fwd = match op { Op::Next | Op::Seek(_) | Op::First => true, Op::Prev | Op::Last => false };
+                        if let Some((k, ts, v)) = parse_obs(o) {
+                            shown_keys.push((k.clone(), fwd));
+                            if let Some((_, _, hs)) = dups.iter().find(|d| d.0 == k && d.1 == ts) {
+                                let distinct_vals = {
+                                    let mut vs: Vec<&Option<Vec<u8>>> = all.iter().filter(|e| e.key == k && e.ts == ts).map(|e| &e.val).collect();
+                                    vs.sort();
+                                    vs.dedup();
+                                    vs.len()
+                                };
+                                if distinct_vals < 2 {
+                                    continue;
+                                }
+                                let j = match v { Some(v) if v.len() == 2 && v[0] == b'c' => (v[1] - b'0') as usize, _ => continue };
+                                let rank = if j == hs[0] { "lowest_index_holder" } else if j == hs[hs.len() - 1] { "highest_index_holder" } else { "middle_holder" };
+                                rec.count(&format!("{}.winner.{}.{}", name, if fwd { "after_next_or_seek" } else { "after_prev" }, rank));
+                                seen.push((k, ts, fwd, j));
+                            }
+                        }
+                    }
+                    let mut ids: Vec<(Vec<u8>, u64)> = seen.iter().map(|x| (x.0.clone(), x.1)).collect();
+                    ids.sort();
+                    ids.dedup();
+                    for (k, ts) in ids {
+                        let f: Vec<usize> = { let mut v: Vec<usize> = seen.iter().filter(|x| x.0 == k && x.1 == ts && x.2).map(|x| x.3).collect(); v.sort(); v.dedup(); v };
+                        let b: Vec<usize> = { let mut v: Vec<usize> = seen.iter().filter(|x| x.0 == k && x.1 == ts && !x.2).map(|x| x.3).collect(); v.sort(); v.dedup(); v };
+                        if f.len() > 1 { rec.count(&format!("{}.winner_varies_within_forward_calls", name)); }
+                        if b.len() > 1 { rec.count(&format!("{}.winner_varies_within_backward_calls", name)); }
+                        if !f.is_empty() && !b.is_empty() {
+                            rec.count(&format!("{}.duplicate_shown_in_both_directions.{}", name, if f == b { "same_winner" } else { "different_winner" }));
+                        }
+                    }
+                    // a duplicated version that is a tombstone in one child and a value in another
+                    for (k, ts, _) in &dups {
+                        let vals: Vec<&Ent> = all.iter().filter(|e| e.key == *k && e.ts == *ts).cloned().collect();
+                        let mixed = vals.iter().any(|e| e.val.is_none()) && vals.iter().any(|e| e.val.is_some());
+                        if mixed && candidate(k, *ts) && in_bounds(k) {
+                            let f = shown_keys.iter().any(|x| x.0 == *k && x.1);
+                            let b = shown_keys.iter().any(|x| x.0 == *k && !x.1);
+                            rec.count(&format!("{}.tombstone_vs_value.key_{}", name, match (f, b) { (true, true) => "shown_in_both_directions", (true, false) => "shown_after_next_or_seek_only", (false, true) => "shown_after_prev_only", _ => "never_shown_by_this_program" }));
+                        }
+                    }
+                    Verdict::Ok
+                }
+            };
+            (obs.join(" "), v)
+        }
+        Err(m) => match malformed {
+            None => ("panic".to_string(), Verdict::Fail { class: "panic".into(), detail: m }),
+            Some(_) => {
+                rec.count(&format!("{}.panic", name));
+                ("panic".to_string(), Verdict::Ok)
+            }
+        },
+    };
+    rec.case(&req, &obs_line, verdict, nt);
+}
+
 pub fn run(args: &Args) {
     let rec = Recorder::new(&args.out, args.only_case);
     let mut dir = SstDir::new(&args.out);
@@ -941,6 +1368,42 @@ pub fn run(args: &Args) {
         one_case(&mut cx, "lazy", Comb::Lazy, tabs, ops, false);
     }
 
+    // ---- stream 7: the scan stack over children with duplicated, IDENTICAL (key, ts) entries ---------
+    // ---- stream 8: the same with DIFFERENT payloads in the copies (malformed; recorded, no verdict) -
+    // (the stack model holds the repaired `BoundsCursor::prev`; on a tree without the D-19 repair
+    // the bounds stream reports the finding and these streams are not run)
+    if !cx.asis.bounds_prev_old {
+        for i in 0..900 * scale {
+            if !cx.rec.wants() { cx.rec.skip(); continue; }
+            let mut rng = Rng::for_case(args.seed, 7, i);
+            let sc = gen_stackdup(&mut rng);
+            stack_case(&mut cx, "stackdup", sc, None);
+        }
+        // the smallest malformed inputs, always first in the stream: one (key, ts), two or three
+        // children, value vs value and value vs tombstone, there and back
+        let val = |j: u8| Ent { key: b"a".to_vec(), ts: 1, val: Some(vec![b'c', b'0' + j]) };
+        let fixed_mal: Vec<(Vec<Tab>, Vec<Op>)> = vec![
+            (vec![reft(vec![val(0)]), reft(vec![val(1)])], vec![Op::Next, Op::Prev, Op::Next, Op::Last, Op::Prev, Op::Next, Op::Prev]),
+            (vec![reft(vec![val(0)]), reft(vec![del(b"a")])], vec![Op::Next, Op::Last, Op::Prev]),
+            (vec![reft(vec![del(b"a")]), reft(vec![val(1)])], vec![Op::Next, Op::Last, Op::Prev]),
+            (vec![reft(vec![val(0)]), reft(vec![val(1)]), reft(vec![val(2)])], vec![Op::Next, Op::Last, Op::Prev, Op::Next, Op::Prev]),
+        ];
+        for (tabs, ops) in fixed_mal {
+            if !cx.rec.wants() { cx.rec.skip(); continue; }
+            let sc = StackCase { tabs, t: 9, lo: Bd::Unb, hi: Bd::Unb, ops, shapes: vec!["fixed_minimal"] };
+            stack_case(&mut cx, "stackmal", sc, Some("fixed_minimal"));
+        }
+        for i in 0..400 * scale {
+            if !cx.rec.wants() { cx.rec.skip(); continue; }
+            let mut rng = Rng::for_case(args.seed, 8, i);
+            let mut sc = gen_stackdup(&mut rng);
+            let mode = make_malformed(&mut rng, &mut sc);
+            stack_case(&mut cx, "stackmal", sc, Some(mode));
+        }
+    } else {
+        cx.rec.count("stack_streams_not_run.bounds_prev_unrepaired");
+    }
+
     let a = cx.asis;
     let _ = cx.args;
     let extra = format!(
@@ -949,7 +1412,7 @@ pub fn run(args: &Args) {
     );
     drop(cx.dir);
     cx.rec.finish(
-        "seven seeded streams (known inputs; merging with pairwise distinct (key,ts); merging with duplicated (key,ts); concatenation of a sorted list cut at arbitrary points incl. inside a key; bounds of all nine kinds; pruning; lazy over SSTs) over the key alphabet {'', a, a\\0, a\\xff, aa, ab, b, \\xff, \\xff\\xff}, timestamps {0,1,2,3,4,6,9}, tombstone rate 0/35/60/100 %, children = ReferenceCursor (sometimes pre-positioned) / SstCursor / LazyCursor; programs = random walks, position sweeps with reversals at every position, full traversals there and back; non-trivial = specified list has >= 2 entries, the program reverses direction (next after prev or prev after next) at least once and >= 2 different entries were shown; distinct by request text",
+        "nine seeded streams (known inputs; merging with pairwise distinct (key,ts); merging with duplicated (key,ts); concatenation of a sorted list cut at arbitrary points incl. inside a key; bounds of all nine kinds; pruning; lazy over SSTs; stackdup = the real Bounds(Pruning(Merging[children])) stack over children holding IDENTICAL copies of a (key,ts): flush-window shape (one child's whole content once more as another child), a copy in three children, duplicated tombstones, duplicates at the first/last key and at the bounds, all children identical, oracle = vector cursor over the deduplicated versions; stackmal = the same with DIFFERENT values / tombstone flags in the copies, model = implementation compared, no oracle verdict, the winning child recorded) over the key alphabet {'', a, a\\0, a\\xff, aa, ab, b, \\xff, \\xff\\xff}, timestamps {0,1,2,3,4,6,9}, tombstone rate 0/35/60/100 %, children = ReferenceCursor (sometimes pre-positioned) / SstCursor / LazyCursor; programs = random walks, position sweeps with reversals at every position, full traversals there and back; non-trivial = specified list has >= 2 entries, the program reverses direction (next after prev or prev after next) at least once and >= 2 different entries were shown (streams 0-6); for stackdup/stackmal: at least one duplicated (key,ts) is the newest version <= t of its key and its key lies inside the bounds (counted separately as stackdup.nontrivial_cases / stackmal.nontrivial_cases); distinct by request text",
         &[("code_variant_detected", extra)],
     );
 }
